@@ -174,7 +174,11 @@ CHECKS = {
             "C08_*_checked_*; removing a guard makes Panic reachable: C08_unguarded_index_panics) and those checked models are what the "
             "correspondence suites run; the same for stl.go (Model/StlC.v, StlCW.v: slice indices, slicing, nil dereferences, the "
             "divisions by the frame rate and by MaxRows, the diacritic swap, and the type assertions on BiMap values whose dynamic types "
-            "are probed from the code on every run; C08_stl_checked_*, unguarded examples). Tie and the rest of the quantifier on the "
+            "are probed from the code on every run; C08_stl_checked_*, unguarded examples), for ssa.go (Model/SsaC.v: every split/format "
+            "index, the nil option callbacks, the nil-map store; C08_ssa_checked_*) and for ttml.go (Model/TtmlC.v: Begin/End pointers, "
+            "regexp sub-match indices under the stated contract of 4 sub-matches, map stores, nil Metadata/InlineStyle/Style/Region and "
+            "nil map entries in the writer; C08_ttml_checked_*); nil *Item elements inside Items are skipped by every writer "
+            "(C08_*_writer_total_nil_items, after a fix). Tie and the rest of the quantifier on the "
             "implementation: every reader (all option values, and the extension-dispatching opener) on valid documents, structure-aware "
             "mutations/truncations/splices, wrong-format documents, random bytes, transport streams with malformed PES payloads / data "
             "units / teletext packets inside a valid packet layer (the teletext model is value-compared on the hostile payloads); every "
@@ -241,7 +245,9 @@ CHECKS = {
             "instant tolerance - also THROUGH BYTES (C03_read_rendered_bytes) with an XML parser model covering prolog, both quote "
             "styles, self-closing tags, entities and character references, comments (C03_parse2_print2), compared per case with "
             "encoding/xml on rendered documents; each side condition outside the quantifier has a computed counter-example replayed on "
-            "the library. Tie: extracted reader model vs ReadFromTTML on ground-truth documents x renderings (every boundary in any equivalent "
+            "the library; xml.EscapeText is modelled exactly (U+FFFD for runes outside the XML Char production and for invalid UTF-8): "
+            "the byte-level round trip holds for every XML-legal document (C03_write_read_bytes_go; a NUL byte shows the premise is "
+            "needed); clock times are bounded by int64 (C03_time_clock_int64, boundary example). Tie: extracted reader model vs ReadFromTTML on ground-truth documents x renderings (every boundary in any equivalent "
             "time syntax, indentation, br placement, prefixes) parsed into the tree by the harness's own encoding/xml loop; time "
             "expressions through a hook on exhaustive and boundary grids; WriteToTTML bytes = the model's bytes for every indent option; "
             "the Coq XML parser vs encoding/xml on the library's output; oracles: exact rational instants, an independent "
@@ -263,7 +269,11 @@ CHECKS = {
             "written line splits back into exactly its runs, every mixture of \\N and \\n denotes the same lines, commas are ordinary "
             "bytes; style and event rows decoded column by column for EVERY Format line (any order, subset, repetition, unknown names, "
             "TertiaryColour) and every admissible cell encoding; reading of rendered documents for every order of the script-info keys, "
-            "every spelling of the section names and every pair of Format lines; write->read = the document (canonical form) for every "
+            "every spelling of the section names and every pair of Format lines, generalised (C04_read_sections_all) to sections in any "
+            "order and number, preamble lines, unknown script-info keys, comments and junk inside any section, several Format lines; "
+            "parser-free characterisations of every cell spelling the reader accepts (ints, booleans, colours in mixed-case/6-digit "
+            "hex, numbers, times with hours of any width: C04_*_spellings); reading any rendering then writing, reading and writing again "
+            "gives a byte-equal second write (C04_rewrite_rendered); write->read = the document (canonical form) for every "
             "representable document and every iteration order of the styles map (true booleans stay true, all 23 attributes); second "
             "write byte-equal: write (read (write d)) = write d; bytes independent of the map order; unintelligible lines, unknown "
             "sections and non-Dialogue events ignored; LF/CRLF/CR and BOM; reader and writer never panic. Tie: extracted model vs "
@@ -275,8 +285,8 @@ CHECKS = {
             "Rocq proof over a Gallina model of the SSA/ASS codec + extracted-model differential correspondence (values, bytes, rows through hooks) + independent Format-driven decoder",
             "floats are fixed-point thousandths in the model (|k| < 10^15); strconv's behaviour on them is a stated contract exercised by "
             "the ssafloat suites, outside that domain only the Ok/Err/Panic class is compared; strings.ToLower, regexp and sort.Strings as "
-            "stated in notes/C04.md; the document-level reading theorem fixes the order of the three sections (other orders: "
-            "correspondence and oracle only); every theorem of Properties/C04.v is closed under the global context."),
+            "stated in notes/C04.md; a malformed Style/Dialogue-like row (too few cells) aborts the read (judged a malformed row, not an "
+            "unintelligible line; reasoning in notes/C04.md); every theorem of Properties/C04.v is closed under the global context."),
     "C05": (True,
             "Executable Gallina models of ReadFromSTL and WriteToSTL (Model/Stl.v: block framing, GSI parse/encode, TTI parse/encode, "
             "timecodes and programme start, the character handler with pending diacritics, open-subtitling and teletext row parsers, "
